@@ -362,6 +362,7 @@ func (p *Program) runPath(sv *solver, pkgPath string, fn *ssa.Function, prefix [
 		pr.Asserts = ps.asserts
 		pr.Violations = ps.viols
 		pr.Reached = sortedKeys(ps.reached)
+		pr.FailsAll = ps.failsAll
 		pr.funcsCalled = ps.funcs
 		alts = ps.alts
 		if pr.Status == "ok" || pr.Status == "stop" {
@@ -442,6 +443,7 @@ func (p *Program) newInterpreter(sv *solver) *interpreter {
 		cfg:        p.cfg,
 		poisoned:   map[*ssa.Global]string{},
 		initStarted: map[*ssa.Function]bool{},
+		pkgInitDone: map[*ssa.Package]bool{},
 		harnessState: map[string]value{},
 	}
 	if p.cfg.Trace {
@@ -466,10 +468,29 @@ func (p *Program) newInterpreter(sv *solver) *interpreter {
 // ---- tolerant package initialisation ----
 
 func (i *interpreter) runInit(pk *ssa.Package) {
+	// packages are initialised lazily, on first use (see ensureInit)
+	i.ensureInit(pk)
+}
+
+// ensureInit runs the initialiser of pk if it has not started yet. Package
+// initialisation is lazy: a package is initialised when one of its functions
+// is first called or one of its variables first accessed on the current
+// path. For the side-effect-free initialisers the encoded code depends on
+// this is equivalent to Go's eager order and avoids re-running hundreds of
+// initialisers on every path.
+func (i *interpreter) ensureInit(pk *ssa.Package) {
+	if pk == nil || i.pkgInitDone[pk] {
+		return
+	}
+	i.pkgInitDone[pk] = true
+	fn := pk.Func("init")
+	if fn == nil {
+		return
+	}
+	saved := i.inInit
 	i.inInit = true
-	defer func() { i.inInit = false }()
-	// globals are allocated lazily by globalCell
-	i.callPkgInit(pk.Func("init"))
+	defer func() { i.inInit = saved }()
+	i.callPkgInit(fn)
 }
 
 func (i *interpreter) globalCell(g *ssa.Global) *value {
@@ -478,6 +499,9 @@ func (i *interpreter) globalCell(g *ssa.Global) *value {
 	}
 	cell := zero(mustDeref(g.Type()))
 	i.globals[g] = &cell
+	if g.Pkg != nil && !i.pkgInitDone[g.Pkg] {
+		i.ensureInit(g.Pkg)
+	}
 	return &cell
 }
 
